@@ -404,7 +404,7 @@ func KmacGrid(boundary []int, seed int64, dense bool) (res Result) {
 		keyLens[k] = true
 	}
 	custLens := []int{0, 1, 3, 50, 165, 166, 167, 168, 169, 300}
-	outLens := []int{0, 1, 31, 32, 128, 167, 168, 169, 1000}
+	outLens := []int{0, 1, 31, 32, 33, 128, 167, 168, 169, 1000, 8191, 8192, 8193} // 32 and 8192 bytes: right_encode(output bits) grows by a byte
 	data := pat(9, 700)
 	for kl := range keyLens {
 		key := pat(kl, kl)
